@@ -5,7 +5,7 @@ CONSTANTS
   Big = {"r"}
   MaxRoot = 2
   MaxOther = 1
-  Forms = {"static", "sidefx", "export", "dynamic", "type", "jsdoc"}
+  Forms = {"static", "dynamic", "type"}
   Targets = {"a", "b", "j", "m", "!bad"}
   Sp1 = {"a"}
   MayMiss = {"m"}
